@@ -11,7 +11,9 @@ Say(idx, j, clause) == PrintT(<<"R", idx, j, clause>>)
 Seen(o) == IF o.ok THEN [ok |-> TRUE, cfg |-> MapOf(o.cfg)] ELSE Err
 Check == LET c == Cases[tidx]
              ref == Outcome(c.fields, c.items)
-         IN \A j \in 1..Len(c.outs) :
+         IN IF Unspecified(c.items)
+            THEN (\A j, k \in 1..Len(c.outs) : Seen(c.outs[j]) = Seen(c.outs[k])) \/ Say(tidx, 1, "styles-disagree")
+            ELSE \A j \in 1..Len(c.outs) :
               LET o == c.outs[j]
                   alg == AlgOutcome(o.style, c.chan, c.fields, c.items)
               IN /\ (Seen(o) = ref) \/ Say(tidx, j, IF DottedNoWholeGroup(o.style, c.chan, c.items) THEN (IF Seen(o) = alg THEN "ref-dev-as-alg" ELSE "ref-dev") ELSE "ref")
